@@ -385,6 +385,24 @@ def parser_pipeline(prop, tier, fam, whys, sweep=0, cfgname=None, need=('"res":"
     toks = verif.printed_records(res["out"], "TOKS")
     if not behs or not toks:
         raise ToolError("MC_Parser printed no behaviours")
+    nsim = 0
+    simcfg = "MC_Parser_%s_sim.cfg" % fam
+    if cfgname is None and os.path.exists(os.path.join(verif.SPEC, "mc", simcfg)):
+        # longer histories of the same family (up to 6 configuration calls and 4 parses, reconfiguration
+        # between parses): random behaviours drawn by TLC in simulation mode, invariants checked on each
+        sres = verif.run_tlc("MC_Parser.tla", simcfg, workers=2, timeout=1800, depth=10,
+                             simulate="num=%d" % (60 if not thorough else 1500), tag="MC_Parser-%s-sim" % fam)
+        if sres["violated"]:
+            raise ToolError("MC_Parser simulation (%s) reported %s" % (simcfg, sres["violated"]))
+        if verif.printed_records(sres["out"], "TOKS")[:1] != toks[:1]:
+            raise ToolError("token tables of %s and %s differ" % (cfg, simcfg))
+        seen = set(json.dumps(b, sort_keys=True) for b in behs)
+        for b in verif.printed_records(sres["out"], "BEH"):
+            key = json.dumps(b, sort_keys=True)
+            if key not in seen and len(b["ops"]) >= 5:
+                seen.add(key)
+                behs.append(b)
+                nsim += 1
     beh_path = os.path.join(verif.WORK, "pbeh_%s_%s.ndjson" % (prop, tier))
     toks_path = os.path.join(verif.WORK, "ptoks_%s_%s.json" % (prop, tier))
     verif.write_ndjson(beh_path, behs)
@@ -435,7 +453,7 @@ def parser_pipeline(prop, tier, fam, whys, sweep=0, cfgname=None, need=('"res":"
     if hist.get('"res":"late"', 0) > n // 2:
         raise ToolError("the machine was too slow for the time-passing histories: %d late parses" % hist['"res":"late"'])
     return dict(states=res["distinct"], transitions=res["states"], nbeh=len(behs), n=n, bad=bad, violations=violations,
-                other=other, nparse=nparse, samples=sample, twall=tres["wall"], outcomes=hist)
+                other=other, nparse=nparse, samples=sample, twall=tres["wall"], outcomes=hist, nsim=nsim)
 
 
 def check_parser_family(prop, tier):
